@@ -1,0 +1,35 @@
+// This Source Code Form is subject to the terms of the Mozilla Public
+// License, v. 2.0. If a copy of the MPL was not distributed with this
+// file, You can obtain one at http://mozilla.org/MPL/2.0/.
+
+//go:build verif
+
+package encryption
+
+// Contracts for the deductive verifier in /verif (govc). Comment-only file: it
+// adds no code. Lines starting with //@ are parsed by govc; see /verif/DESIGN.md.
+//
+// C18, local framing logic of the encryption wrapper: version byte, nonce, length guard; in-bounds
+// access for every byte string. AES-GCM itself is used through an assumed interface contract.
+
+//@ func (*Cipher).Encrypt
+//@   props C18
+//@   requires c != nil && c.cipher != nil
+//@   at c.cipher #1
+//@     assume_result [cipher-or-error] result1 == nil ==> result0 != nil
+//@   ensures [format] err == nil ==> len(result0) >= 13 && result0[0] == 1
+//@
+//@ func (*Cipher).Decrypt
+//@   props C18
+//@   requires c != nil && c.cipher != nil
+//@   at c.cipher #1
+//@     assume_result [cipher-or-error] result1 == nil ==> result0 != nil
+//@   ensures [short-rejected] len(b) < 14 ==> err != nil
+//@   ensures [version-rejected] len(b) >= 14 && old(b[0]) != 1 ==> err != nil
+//@
+//@ func (*Marshaler).MarshalResource
+//@   props C18
+//@   requires m != nil && m.underlying != nil && m.cipher != nil && m.cipher.cipher != nil
+//@ func (*Marshaler).UnmarshalResource
+//@   props C18
+//@   requires m != nil && m.underlying != nil && m.cipher != nil && m.cipher.cipher != nil
